@@ -3,6 +3,7 @@ package gosym
 import (
 	"fmt"
 	"go/types"
+	"os"
 	"sort"
 	"strings"
 
@@ -40,6 +41,7 @@ type Violation struct {
 	KnownTags []string      `json:"known_tags,omitempty"`
 	Decisions int           `json:"decisions"`
 	Where     string        `json:"where,omitempty"`
+	Schedule  []string      `json:"schedule,omitempty"`
 }
 
 // PathResult summarises one explored path.
@@ -87,6 +89,7 @@ type Exec struct {
 	clock    *Term
 	notes    map[string]interface{}
 	hashes   []hashRec
+	sched    []string // pre-emptions taken on this path (thread, position, thread switched to)
 	allMutexes []*mutexState
 }
 
@@ -108,6 +111,8 @@ type Thread struct {
 	depth    int
 	isMain   bool
 	what     string
+	where    string
+	low      bool // low priority: runs only at a chosen pre-emption point or when nothing else can run
 }
 
 type yieldEv struct {
@@ -202,9 +207,15 @@ func (ex *Exec) choose(n int) int {
 		d := ex.prefix[ex.pos]
 		ex.pos++
 		ex.trace = append(ex.trace, d)
+		if traceCalls {
+			fmt.Fprintf(os.Stderr, "choose(%d) = %d\n", n, d.V)
+		}
 		return int(d.V)
 	}
 	ex.pos++
+	if traceCalls {
+		fmt.Fprintf(os.Stderr, "choose(%d) new\n", n)
+	}
 	for i := n - 1; i >= 1; i-- {
 		alt := append(append([]Dec{}, ex.trace...), Dec{K: 'c', V: uint64(i)})
 		ex.H.push(alt)
@@ -474,6 +485,12 @@ func (ex *Exec) runPath(h *ssa.Function) (end string) {
 			return "deadlock"
 		}
 		next := cands[0]
+		for _, c := range cands {
+			if !c.low {
+				next = c
+				break
+			}
+		}
 		if ev.kind == 2 {
 			// pre-emption point: stay or switch
 			if ex.explore && ex.preempt > 0 && len(cands) > 1 {
@@ -483,6 +500,8 @@ func (ex *Exec) runPath(h *ssa.Function) (end string) {
 				next = cands[k]
 				if next != ev.t {
 					ex.preempt--
+					ex.sched = append(ex.sched, fmt.Sprintf("goroutine %d (%s) pre-empted before a synchronisation operation in %s; goroutine %d (%s) runs",
+						ev.t.ID, shortFn(ev.t.what), shortFn(ev.t.where), next.ID, shortFn(next.what)))
 				}
 			} else {
 				next = ev.t
